@@ -1702,7 +1702,8 @@ def meta(tier):
                           'DR: tau*sum(sigma_i|L_i|^2) in {2, 3.6, 1} with lam {1, 1.5, 0.5}; '
                           'FBPD: the documented inequality evaluated explicitly; PG gamma*Lip in '
                           '{1, 1.9, 0.5} (lam 1) and (1, lam 0.5); APG gamma*Lip in {1, 0.5}; '
-                          'default / tau-only / sigma-only rules of pdhg and DR'
+                          'default / tau-only / sigma-only rules of pdhg and DR; accelerated '
+                          'pdhg with gamma_primal / gamma_dual in {1, 1/2} x modulus'
                           + ('' if thorough else ' (quick: first setting of each + default)'),
             'liveness_horizon_K': K_LIVE,
             'liveness_tolerances': '|x_K-x*| <= 1e-5 (1+|x*|) (unique solutions), KKT residual <= '
@@ -1738,8 +1739,15 @@ def meta(tier):
             'unspecified; their objective values along the iterates are judged',
             'power method: a start vector in the kernel (ValueError "reached x=0") yields no '
             'estimate and is counted as unspecified',
-            'unreached anchor lines: argument validation raises, pdhg acceleration '
-            '(gamma_primal/gamma_dual), the l_i terms of DR / FBPD and DR without operators, '
+            'accelerated pdhg (gamma_primal = {1, 1/2} x strong-convexity modulus of f, gamma_dual '
+            '= {1, 1/2} x modulus of g^*, wherever the modulus is positive): the fixed point '
+            '(1, 3, 10 iterations from the certified KKT pair) is judged on every such member; '
+            'bounded liveness (K=%d, |x_K-x*| <= 1e-3 (1+|x*|), residual <= 1e-4 scale) only '
+            'where f AND g^* are strongly convex - elsewhere the scheme is O(1/N) and no horizon '
+            'with a margin exists' % K_ACC,
+            'kaczmarz random=True: numpy.random seeded from the configuration; the invariant '
+            'holds for every order of the operators',
+            'unreached anchor lines: argument validation raises, the l_i terms of DR / FBPD and DR without operators, '
             'projection= of landweber/kaczmarz/steepest_descent, random=True of kaczmarz, '
             'maxiter=None / callback of the power method, NaN / non-finite guards of the line '
             'search',
